@@ -353,13 +353,29 @@ def check_files(ctx, V, impl, model, cases, exec_mode, label):
         p["real"] = st
         p["real_dump"] = dump
         p["xlog"] = xlog
-        if st["exit"] == 0 and st["sig"] == 0:
+        if (st["exit"] == 0 and st["sig"] == 0) or xlog:       # xlog non-empty: parsed and dumped, died while executing
             batches.append(("r%d" % k, strip_nsub(dump)))
     mod = run_model(ctx, model, batches)
     for k, p in enumerate(parsed):
         p["m"] = mod.get("m%d" % k)
         p["r"] = mod.get("r%d" % k)
     return parsed
+
+
+CTX_HITS = []           # hsprintf calls of the real interpreter with a %s and no argument
+
+
+def flush_ctx_violations(V):
+    if CTX_HITS:
+        w = dict(CTX_HITS[0])
+        seen, also = set([w["text"]]), []
+        for h in CTX_HITS[1:]:
+            if h["text"] not in seen:
+                seen.add(h["text"]); also.append(h["text"])
+        w["also"] = also[:60]
+        V.violation("meaning_send", "%s:%d" % (w["file"], w["script_index"]), w,
+                    w["text"] + ("" if not also else "   (+ %d more sends, listed under `also`)" % len(also)))
+        del CTX_HITS[:]
 
 
 RULE_HITS = {}          # rule -> [witness dict, ...]   (one VIOLATION per rule; the first hit is the site)
@@ -412,13 +428,20 @@ def run(ctx, V):
     cases = [(f, f, open(os.path.join(ctx.repo, f), "rb").read()) for f in found]
     res = check_files(ctx, V, impl, model, cases, True, "shipped")
     tot = dict(files=0, specs=0, scripts=0, stmts=0, patterns=0, sends=0, hsprintf_calls=0, actions=0, sends_observed=0)
-    refused = []
+    refused, aborted = [], []
     for p in res:
         V.case(("shipped", p["id"]), True)
         V.count("shipped:" + p["verdict"])
         tot["files"] += 1
         st = p["real"]
         accepted = st["exit"] == 0 and st["sig"] == 0
+        if not accepted and p["xlog"]:
+            # the file was parsed and dumped; the REAL interpreter died while executing one of its scripts
+            lastq = [l for l in p["xlog"] if l.startswith("Q ")][-1:] or ["?"]
+            aborted.append(dict(file=p["rel"], request=lastq[0], exit=st["exit"], sig=st["sig"], stderr=st["err"][:300],
+                                text="%s: the real _process_action died (exit=%d sig=%d) executing request `%s` with faked device replies: %s" % (
+                                    p["rel"], st["exit"], st["sig"], lastq[0], st["err"][:200].strip())))
+            accepted = True
         # monitor 1: the real parser loads the file, all patterns compile
         if not accepted:
             refused.append(dict(file=p["rel"], exit=st["exit"], sig=st["sig"], stderr=st["err"][:300]))
@@ -445,6 +468,10 @@ def run(ctx, V):
         # R-CTX + monitor 3: what hsprintf really received
         check_ctx(ctx, V, p, tot)
     flush_rule_violations(V)
+    flush_ctx_violations(V)
+    if aborted:
+        w = dict(aborted[0]); w["also"] = [a["text"] for a in aborted[1:60]]
+        V.violation("interpreter_abort", w["file"], w, w["text"] + ("" if len(aborted) == 1 else "   (+ %d more files)" % (len(aborted) - 1)))
     if refused:
         r0 = refused[0]
         V.violation("loads", r0["file"] if len(refused) == 1 else "parser", dict(file=r0["file"], exit=r0["exit"], sig=r0["sig"], stderr=r0["stderr"], all_refused=[r["file"] for r in refused]),
@@ -536,6 +563,8 @@ def check_ctx(ctx, V, p, tot):
     k = -1
     for l in p["xlog"]:
         w = l.split()
+        if (w[0] == "H" and len(w) != 5) or (w[0] == "A" and len(w) != 3):
+            continue                       # line cut short by a dying child
         if w[0] == "XSPEC":
             k += 1
         elif w[0] == "A":
@@ -567,8 +596,9 @@ def check_ctx(ctx, V, p, tot):
                 detail = "%s:%s script %d statement %s: hsprintf(%r, %s) but the model predicts %s" % (
                     p["rel"], st.line if st else "?", script, path, st.text if st else "?", "NULL" if not arg else "plug", "an argument" if sends[key] else "NULL")
                 if needs and not arg:
-                    V.violation("meaning_send", "%s:%d" % (p["rel"], script), dict(file=p["rel"], script_index=script, path=path, fmt=vlib.hexs(st.text), arg=None), detail)
-                V.tie_broken("correspondence", "R-CTX", detail, case=p["rel"])
+                    CTX_HITS.append(dict(file=p["rel"], script_index=script, path=path, fmt=vlib.hexs(st.text), arg=None, text=detail))
+                if sum(1 for b in V.broken if b["name"] == "R-CTX") < 5:
+                    V.tie_broken("correspondence", "R-CTX", detail, case=p["rel"])
     tot["sends_observed"] += len(seen)
 
 
@@ -618,7 +648,11 @@ def replay(ctx, V, path):
     print("real parser       : exit=%d sig=%d %s" % (p["real"]["exit"], p["real"]["sig"], p["real"]["err"][:300].strip()))
     print("independent reader: %s %s" % (p["verdict"], p["why"]))
     bad = 0
-    if p["real"]["exit"] != 0 or p["real"]["sig"] != 0:
+    if (p["real"]["exit"] != 0 or p["real"]["sig"] != 0) and p["xlog"]:
+        lastq = [l for l in p["xlog"] if l.startswith("Q ")][-1:] or ["?"]
+        print("VIOLATED: the file loads, but the real _process_action died executing request `%s` with faked device replies" % lastq[0])
+        bad = 1
+    elif p["real"]["exit"] != 0 or p["real"]["sig"] != 0:
         print("VIOLATED: the file does not load")
         return 1
     for origin, side in (("real parser's tree", p["r"]), ("independent reader's tree", p["m"])):
@@ -630,6 +664,7 @@ def replay(ctx, V, path):
             bad = 1
     tot = dict(files=0, specs=0, scripts=0, stmts=0, patterns=0, sends=0, hsprintf_calls=0, actions=0, sends_observed=0)
     check_ctx(ctx, V, p, tot)
+    flush_ctx_violations(V)
     for v in V.violations:
         print("VIOLATED: " + v["detail"])
         bad = 1
